@@ -365,4 +365,6 @@ MUTANTS = [
          expect='FWD-PARAM'),
     dict(name='openrpc-excludes-name-not-context', file='pjrpc/server/specs/openrpc.py',
          find='exclude=[method.context] if method.context else [],', replace='exclude=[method.name] if method.context else [],', expect='EXCL-AGREE'),
+    dict(name='openrpc-required-from-default-key', file='pjrpc/server/specs/openrpc.py', find="required=name in params_schema.get('required', []),",
+         replace="required='default' not in schema,", expect='REQ-SOURCE'),
 ]
